@@ -188,3 +188,86 @@ pub fn gen(out: &mut crate::gen::Out, rng: &mut Rng, thorough: bool) {
         }
     }
 }
+
+// ---------------------------------------------------------------------------------------------
+// C18 through the raster builder: `ImageBuilder` forwards the image options to its inner SVG builder; where the
+// frame really ends up is read from the pixels. The frame is drawn in a colour nothing else uses (magenta), square,
+// at 8 px per module; its bounding box is reported.
+//   pixframe <hex> e m v k <ops> => ok <pixmap side> <n> <x0> <y0> <x1> <y1> (half-open box, pixels) | nobuild … | trap
+pub const FRAME_SCALE: usize = 8;
+pub fn pixframe_line(input: &[u8], o: Opts, ops: &[Op]) -> String {
+    let head = format!(
+        "pixframe {} {} {} {} {} {} => ",
+        hex(input), opt(o.ecl), opt(o.mode), opt(o.version), opt(o.mask), svgops::toks(ops)
+    );
+    let r = build(input, o);
+    let q = match &r {
+        Outcome::Ok(q) => q.clone(),
+        _ => return format!("{}nobuild {}", head, outcome_short(&r)),
+    };
+    let mut margin = 4usize;
+    for op in ops {
+        if let Op::Margin(m) = op {
+            margin = *m;
+        }
+    }
+    let side = ((q.size + 2 * margin) * FRAME_SCALE) as u32;
+    let ops2 = ops.to_vec();
+    let q2 = q.clone();
+    let res = std::panic::catch_unwind(move || {
+        let mut b = ImageBuilder::default();
+        svgops::apply(&mut b, &ops2);
+        b.image_background_color([255u8, 0, 255, 255]);
+        b.fit_width(side);
+        b.to_pixmap(&q2)
+    });
+    let pm = match res {
+        Ok(x) => x,
+        Err(e) => return format!("{}trap {}", head, panic_msg(e)),
+    };
+    let (w, h) = (pm.width() as usize, pm.height() as usize);
+    let (mut x0, mut y0, mut x1, mut y1) = (usize::MAX, usize::MAX, 0usize, 0usize);
+    for y in 0..h {
+        for x in 0..w {
+            if let Some(p) = pm.pixel(x as u32, y as u32) {
+                let c = p.demultiply();
+                if [c.red(), c.green(), c.blue(), c.alpha()] == [255, 0, 255, 255] {
+                    x0 = x0.min(x);
+                    y0 = y0.min(y);
+                    x1 = x1.max(x + 1);
+                    y1 = y1.max(y + 1);
+                }
+            }
+        }
+    }
+    if x0 == usize::MAX {
+        return format!("{}ok {} {} none", head, w, q.size);
+    }
+    format!("{}ok {} {} {} {} {} {}", head, w, q.size, x0, y0, x1, y1)
+}
+
+pub fn gen_frames(out: &mut crate::gen::Out, rng: &mut Rng, thorough: bool) {
+    let caps = crate::gen::caps();
+    for k in 0..(if thorough { 400 } else { 40 }) {
+        let v = rng.below(if thorough { 12 } else { 5 });
+        let n = (21 + 4 * v) as i64;
+        let (inp, o) = crate::gen::small_symbol(rng, &caps, v);
+        // square frame (clean edges), margins small; size / gap / position in whole and half modules
+        let mut ops = vec![Op::Margin(rng.below(5)), Op::ImageBgShape(0), Op::Image("x.png".to_string())];
+        let which = if k % 4 == 0 { 0 } else { rng.range(1, 7) };
+        if which & 1 != 0 {
+            ops.push(Op::ImageSize((rng.range(2, (n / 3) as usize) as f64) + if rng.chance(1, 3) { 0.5 } else { 0.0 }));
+        }
+        if which & 2 != 0 {
+            ops.push(Op::ImageGap(rng.below(3) as f64 + if rng.chance(1, 3) { 0.5 } else { 0.0 }));
+        }
+        if which & 4 != 0 || k % 3 == 0 {
+            // off-diagonal positions well inside the symbol
+            let x = rng.range(6, (n - 4) as usize) as f64;
+            let mut y = rng.range(6, (n - 4) as usize) as f64;
+            if (x - y).abs() < 2.0 { y = if y + 3.0 < (n - 4) as f64 { y + 3.0 } else { y - 3.0 }; }
+            ops.push(Op::ImagePosition(x, y));
+        }
+        out.job(move || pixframe_line(&inp, o, &ops));
+    }
+}
